@@ -65,6 +65,7 @@ type BoundContract struct {
 	Terminates  bool
 	Recovers    bool
 	MayPanic    bool
+	OnPanic     []ClauseExpr // facts about the state in which a 'panics' callee panics (assumed, over old/new state)
 	NoPanic     map[string]bool // callees whose panics are assumed away in this unit ("nopanic F G")
 	Partial     bool // a violated precondition makes the function panic (runtime check), it is not undefined behaviour
 	Trusted     bool
